@@ -297,11 +297,55 @@ def predictor_geometry(ctx, F, pr, png):
                 % ((bad[0][0], bad[0][1], bad[0][2], bad[0][3], bad[0][4], bad[0][1] * bad[0][2] // 8, bad[0][0]) if bad else ("",) * 7))
 
 
+def _filter_types_by_table(F, tf):
+    """`TABLE.get(usize::from(n)).copied().ok_or(())` — the byte indexes a constant array of filter types and anything
+    beyond its end is refused: {byte: variant}; None when try_from is not of that form."""
+    gets = [c for c in tf.calls if re.search(r"slice::<impl \[.*\]>::get$", c.fn or c.name) and len(c.args) == 2]
+    if len(gets) != 1 or any(st_.get("rv") and st_["rv"]["k"] == "agg" and (st_["rv"]["kind"].get("adt") or "").endswith("FilterType") for _, _, st_ in tf.stmts()):
+        return None
+    g = gets[0]
+    names = lib.enum_array_behind(F, tf, g.args[0])
+    if names is None:
+        return None
+    # the index is the byte itself, widened
+    o = g.args[1]
+    for _ in range(4):
+        q = op_place(o)
+        if q is None or q["p"]:
+            return None
+        if q["l"] == 1:
+            break
+        d = tf.single_def(q["l"])
+        if d is None:
+            return None
+        if d[2] == "rv" and d[3]["k"] == "use":
+            o = d[3]["o"]
+        elif d[2] == "rv" and d[3]["k"] == "cast" and d[3]["ty"] in ("usize", "u16", "u32", "u64"):
+            o = d[3]["o"]
+        elif d[2] == "call" and re.search(r"From<u8>>::from$", d[3]["f"].get("full") or "") and d[3]["args"]:
+            o = d[3]["args"][0]
+        else:
+            return None
+    else:
+        return None
+    # the answer of `get` is what is returned: through copied / cloned / ok_or / ok_or_else only
+    cur = g
+    for _ in range(4):
+        if cur.dest["l"] == 0 and not cur.dest["p"]:
+            return dict(enumerate(names))
+        nxt = [c for c in tf.calls if c.args and op_place(c.args[0]) and op_place(c.args[0])["l"] == cur.dest["l"] and not op_place(c.args[0])["p"]
+               and re.search(r"Option::<.*>::(copied|cloned|ok_or|ok_or_else)$", c.fn or c.name)]
+        if len(nxt) != 1:
+            return None
+        cur = nxt[0]
+    return None
+
+
 def png_rules(ctx, F):
     R = "R-TABLE"
     # the filter type byte in front of each row: PNG (ISO/IEC 15948) 9.2 — 0 None, 1 Sub, 2 Up, 3 Average, 4 Paeth
     tf = F.fn("<FilterType as TryFrom>::try_from")
-    tagmap = {}
+    tagmap = _filter_types_by_table(F, tf) or {}
     for bi in range(tf.n):
         t = tf.term(bi)
         if t["k"] == "switch" and t["dty"] == "u8":
@@ -331,24 +375,27 @@ def png_rules(ctx, F):
     dr = [c for c in df.calls if c.local and c.cname.endswith("png::decode_row")]
     okd, whyd = False, "decode_row is not called exactly once"
     if len(dr) == 1:
-        prev_o, cur_o = lib.origin_local(F, df, dr[0].args[2]), lib.origin_local(F, df, dr[0].args[3])
-        prev_l, cur_l = (prev_o[1] if prev_o else None), (cur_o[1] if cur_o else None)
+        # a row buffer is a local, or a field of a local that groups the two buffers
+        def _id(o_):
+            r_ = lib.origin_local(F, df, o_)
+            return None if r_ is None or r_[0] is not df else (r_[1],) + tuple(e["f"] for e in r_[2] if isinstance(e, dict) and "f" in e)
+        prev_l, cur_l = _id(dr[0].args[2]), _id(dr[0].args[3])
         loops = [(h, bl) for h, bl in df.loops().items() if dr[0].bb in bl]
         whyd = "decode_row is not inside the row loop"
         if loops and prev_l is not None and cur_l is not None and prev_l != cur_l:
             head, blocks = min(loops, key=lambda x: len(x[1]))
             swaps = [c for c in df.calls if c.bb in blocks and (c.fn or "").endswith("mem::swap")
-                     and {(lib.origin_local(F, df, a) or (0, None))[1] for a in c.args} == {prev_l, cur_l}]
+                     and {_id(a) for a in c.args} == {prev_l, cur_l}]
             outs = []
             for c in df.calls:
                 if c.bb in blocks and re.search(r"(write_all|extend_from_slice|extend|push|append)$", c.fn or "") and c.args:
                     o = lib.origin_local(F, df, c.args[0])
-                    if o is not None and o[0] is df and o[1] not in (prev_l, cur_l) and df.lty(o[1]).startswith("std::vec::Vec<u8"):
+                    if o is not None and o[0] is df and _id(c.args[0]) not in (prev_l, cur_l) and not o[2] and df.lty(o[1]).startswith("std::vec::Vec<u8"):
                         outs.append(c)
             okd, whyd = bool(outs) and bool(swaps), "no output write / no swap(previous, current) in the row loop"
             for c in outs:
-                src = lib.origin_local(F, df, c.args[1]) if len(c.args) > 1 else None
-                if not df.dominates(dr[0].bb, c.bb) or src is None or src[1] != cur_l:
+                src = _id(c.args[1]) if len(c.args) > 1 else None
+                if not df.dominates(dr[0].bb, c.bb) or src is None or src != cur_l:
                     okd, whyd = False, "a row is appended to the output (line %d) that is not `current` after decode_row" % c.ln
                     break
                 # from the write, the loop head cannot be reached again without the swap
@@ -372,7 +419,7 @@ def png_rules(ctx, F):
     # filter type dispatch 0..4
     tf = F.fn("<FilterType as TryFrom>::try_from")
     sw = [tf.term(bi) for bi in range(tf.n) if tf.term(bi)["k"] == "switch"]
-    vals = sorted(int(v) for t in sw for v, _ in t["tg"]) if sw else []
+    vals = sorted(int(v) for t in sw for v, _ in t["tg"]) if sw else sorted(_filter_types_by_table(F, tf) or {})
     ctx.ob(R, "png-filter-types", vals == [0, 1, 2, 3, 4], "filter type bytes 0..4 are accepted", tf.where(), what="the PNG filter-type byte mapping is not 0..=4 (got %s)" % vals)
     # paeth_predict: p = a + b - c; order of preference a, b, c with <= comparisons
     pp = F.fn("filters::png::paeth_predict")
@@ -719,6 +766,41 @@ def filter_rules(ctx, F):
             okd = lz.oname(c.args[1], 2) == "1"
         elif short == "is_none_or":
             okd = True
+    if not sel:
+        # the selector is a two-valued private enum instead of a bool: the default variant is the one whose arm builds the
+        # early-change decoder
+        def _fieldless(t_):
+            a_ = F.adts.get(t_)
+            return a_ is not None and a_.get("enum") and not any(v_["fields"] for v_ in a_["variants"]) and all("discr" in v_ for v_ in a_["variants"])
+        sel = [c for c in lz.calls if re.search(r"option::Option::<.*>::(unwrap_or|map_or)$", c.fn or "") and _fieldless(lz.lty(c.dest["l"])) and not c.dest["p"]]
+        for c in sel:
+            dv = lz.def_rv(c.args[1])
+            dv = dv[3] if dv and dv[2] == "rv" else None
+            if not (dv and dv["k"] == "agg" and dv["kind"].get("adt") == lz.lty(c.dest["l"])):
+                continue
+            want_d = [v_["discr"] for v_ in F.adts[lz.lty(c.dest["l"])]["variants"] if v_["name"] == dv["kind"].get("var")]
+            for bi in range(lz.n):
+                t_ = lz.term(bi)
+                if t_["k"] != "switch" or not want_d:
+                    continue
+                dd = lz.def_rv(t_["d"])
+                dd = dd[3] if dd and dd[2] == "rv" else None
+                if not (dd and dd["k"] == "discr" and not dd["p"]["p"] and dd["p"]["l"] == c.dest["l"]):
+                    continue
+                tgt = [x for v, x in t_["tg"] if int(v) == want_d[0]] or [t_["else"]]
+                others = {x for v, x in t_["tg"]} | {t_["else"]}
+                seen_, st_, hit = set(), [tgt[0]], set()
+                while st_:
+                    x = st_.pop()
+                    if x in seen_ or (x in others and x != tgt[0]):
+                        continue
+                    seen_.add(x)
+                    cs_ = lz.callsite_at(x)
+                    if cs_ is not None and re.search(r"weezl::decode::Decoder::(new|with_tiff_size_switch)$", cs_.fn or cs_.name):
+                        hit.add((cs_.fn or cs_.name).rsplit("::", 1)[-1])
+                        continue
+                    st_.extend(y for y in lz.succ[x] if not lz.blocks[y].get("cleanup"))
+                okd = hit == {"with_tiff_size_switch"}
     ctx.ob("R-TABLE", "lzw-earlychange-default", len(sel) == 1 and okd, "a missing EarlyChange means 1 (early change)", lz.where(),
            what="decompress_lzw treats a missing /EarlyChange (or missing DecodeParms) as 0: the standard's default is 1, so streams of more than 253 codes written by other producers decode to garbage "
                 "(object and cross-reference streams with /LZWDecode silently lose their objects)")
